@@ -157,3 +157,129 @@ Proof.
   - vm_compute. reflexivity.
   - vm_compute. reflexivity.
 Qed.
+
+(** ** the source text (gen/Gen_c16.v is re-translated from eqsig/loader.py by translator/py2coq_c16.py at the start of
+    every check; proofs in proofs/P_gen_c16.v)
+
+    Every statement of save_values_and_dt, save_signal, load_values_and_dt, load_signal, load_sig and load_asig is read off
+    the Python `ast` into a Gallina definition [gen_*]; the theorems below say that these definitions ARE the model the
+    theorems above are about, for all inputs.  A writer is the text it leaves in the file, a reader takes the text [t] of the
+    file and returns [None] when a statement raises.
+
+    Translated: the format literals ("%i" -> [dec_int], "%.4f" / "%.6f" -> [fmt_fixed_sb] with 4 / 6 decimals) and the order
+    of their operands, [label, header] followed by one appended line per value in index order, the "\n" of the join, that this
+    text is what is written; on the load side that the readers see the text of the same path, the keyword arguments of
+    np.genfromtxt and the `except TypeError` fallback, line 1 / token 1 of dt, the order of the returned pair, `vals * m`,
+    the label branch (line 0 of the file / the literal 'm1'), the comparisons of astype with "signal" / "acc_sig" and the
+    fall-through to Python None, the constructed class, its arguments and the default label of the constructors (read from
+    eqsig/single.py), the defaults of the keyword parameters.
+    NOT translated (oracles): str.splitlines(), str.split(), float(str) and the binary64 product are instantiated with the
+    model's own [splitlines], [tokens], round_b64 of [parse_float], round_b64 of the exact product; np.genfromtxt is ANY
+    function [gft] with the stated contract for the one call that is in the source (skip_header=1, delimiter=",", names=True,
+    usecols=0 returns the model's [load_values], hence does not raise TypeError: NumPy other than 1.19); `.astype(float)` and
+    `np.atleast_1d` are the identity on the list reading (the translator refuses a return without them).  What the str
+    methods, float(), genfromtxt and the Signal / AccSignal constructors do is tied by the correspondence only. *)
+From EQ Require Import lib.PyText gen.Gen_c16 proofs.P_gen_c16.
+
+Local Notation src_float := (fun s : text => option_map round_b64 (parse_float s)).
+Local Notation src_mul := (fun a b : Q => round_b64 (a * b)).
+Local Notation as_obj := (fun l : loaded =>
+  {| o_class := match l_kind l with KSignal => txt "Signal" | KAccSignal => txt "AccSignal" end;
+     o_values := l_vals l; o_dt := l_dt l; o_label := l_label l |}).
+Local Notation gft_ok gft :=
+  (forall t : text, gft t 1%nat (txt ",") true 0%nat = match load_values t with Some v => GftOk v | None => GftRaise end).
+
+(** save_values_and_dt(ffp, values, dt, label): para = [label, "%i %.4f" % (len(values), dt)]; one para.append("%.6f" %
+    values[i]) per index; the file receives "\n".join(para).  With explicit sign bits (the float -0.0) and without. *)
+Theorem C16_save_values_and_dt_is_source : forall (values : list (bool * Q)) (dt : Q) (label : text),
+  gen_save_values_and_dt values (with_sign dt) label = save_sb label dt values.
+Proof. exact P_gen_c16.gen_save_sb_eq. Qed.
+Theorem C16_save_is_source : forall (xs : list Q) (dt : Q) (label : text),
+  gen_save_values_and_dt (map with_sign xs) (with_sign dt) label = save label dt xs.
+Proof. exact P_gen_c16.gen_save_eq. Qed.
+(** save_signal(ffp, signal) = save_values_and_dt(ffp, signal.values, signal.dt, signal.label) *)
+Theorem C16_save_signal_is_source : forall (xs : list Q) (dt : Q) (label : text),
+  gen_save_signal {| s_values := map with_sign xs; s_dt := with_sign dt; s_label := label |} = save label dt xs.
+Proof. exact P_gen_c16.gen_save_signal_eq. Qed.
+Theorem C16_save_signal_signbit_is_source : forall (values : list (bool * Q)) (dt : Q) (label : text),
+  gen_save_signal {| s_values := values; s_dt := with_sign dt; s_label := label |} = save_sb label dt values.
+Proof. exact P_gen_c16.gen_save_signal_sb_eq. Qed.
+
+(** load_values_and_dt(ffp): data = genfromtxt(..) [except TypeError: the fallback call]; dt = float(text.splitlines()[1]
+    .split()[1]); values = atleast_1d(data.astype(float)); return values, dt *)
+Theorem C16_load_values_and_dt_is_source : forall gft, gft_ok gft -> forall t : text,
+  gen_load_values_and_dt gft splitlines tokens src_float t = load_values_and_dt t.
+Proof. exact P_gen_c16.gen_lvd_eq. Qed.
+(** the `except TypeError` branch (NumPy 1.19, where the first call raises TypeError): the values are those of the second call
+    of the source, genfromtxt(ffp, skip_header=2, delimiter=",", usecols=0), for ANY genfromtxt; dt as before *)
+Theorem C16_load_values_and_dt_fallback_is_source : forall (gft : text -> nat -> text -> bool -> nat -> gft_res) (t : text),
+  gft t 1%nat (txt ",") true 0%nat = GftTypeError ->
+  gen_load_values_and_dt gft splitlines tokens src_float t =
+  match gft_value (gft t 2%nat (txt ",") false 0%nat), load_dt t with
+  | Some v, Some dt => Some (v, dt)
+  | _, _ => None
+  end.
+Proof. exact P_gen_c16.gen_lvd_fallback. Qed.
+(** load_signal(ffp, astype): Signal(vals, dt) / AccSignal(vals, dt) / Python None ([Some None]) *)
+Theorem C16_load_signal_is_source : forall gft, gft_ok gft -> forall t astype : text,
+  gen_load_signal gft splitlines tokens src_float t astype = option_map (option_map as_obj) (load_signal astype t).
+Proof. exact P_gen_c16.gen_load_signal_eq. Qed.
+(** load_sig(ffp, m): Signal(vals * m, dt) *)
+Theorem C16_load_sig_is_source : forall gft, gft_ok gft -> forall (t : text) (m : Q),
+  gen_load_sig gft splitlines tokens src_float src_mul t m = option_map as_obj (load_sig m t).
+Proof. exact P_gen_c16.gen_load_sig_eq. Qed.
+(** load_asig(ffp, load_label, m): label = first line of the file if load_label else 'm1'; AccSignal(vals * m, dt, label=label)
+    (`.splitlines()[0]` cannot raise once values and dt have been read: the file has at least two lines) *)
+Theorem C16_load_asig_is_source : forall gft, gft_ok gft -> forall (t : text) (want_label : bool) (m : Q),
+  gen_load_asig gft splitlines tokens src_float src_mul t want_label m = option_map as_obj (load_asig want_label m t).
+Proof. exact P_gen_c16.gen_load_asig_eq. Qed.
+(** the reading of the model's record as class name + constructor arguments loses nothing *)
+Theorem C16_as_obj_injective : forall a b : loaded, as_obj a = as_obj b -> a = b.
+Proof. exact P_gen_c16.loaded_obj_inj. Qed.
+(** the contract of genfromtxt is satisfiable (by a function that raises on every other call) *)
+Theorem C16_genfromtxt_contract_satisfiable : gft_ok P_gen_c16.gft_model.
+Proof. exact P_gen_c16.gft_model_contract. Qed.
+(** the defaults of the keyword parameters: astype='sig', m=1.0, load_label=False *)
+Theorem C16_defaults_are_source :
+  gen_load_signal_default_astype = txt "sig" /\ gen_load_sig_default_m = 1 /\
+  gen_load_asig_default_load_label = false /\ gen_load_asig_default_m = 1.
+Proof. exact P_gen_c16.gen_defaults. Qed.
+(** as coded: the default astype of load_signal selects neither class *)
+Theorem C16_source_load_signal_default_is_None : forall gft, gft_ok gft -> forall label dt xs, no_break label ->
+  gen_load_signal gft splitlines tokens src_float (gen_save_values_and_dt (map with_sign xs) (with_sign dt) label)
+    gen_load_signal_default_astype = Some None.
+Proof. exact P_gen_c16.gen_load_signal_default. Qed.
+
+(** what the SOURCE computes for load(save(..)) (through the theorems of the model above): the generated readers applied to
+    the text the generated writers leave in the file *)
+Theorem C16_source_roundtrip : forall gft, gft_ok gft -> forall label dt xs, no_break label ->
+  gen_load_values_and_dt gft splitlines tokens src_float (gen_save_values_and_dt (map with_sign xs) (with_sign dt) label)
+  = Some (map (fun x => round_b64 (dec_round 6 x)) xs, round_b64 (dec_round 4 dt)).
+Proof. exact P_gen_c16.gen_roundtrip_lvd. Qed.
+Theorem C16_source_roundtrip_asig : forall gft, gft_ok gft -> forall label dt xs (wl : bool) m, no_break label ->
+  gen_load_asig gft splitlines tokens src_float src_mul
+    (gen_save_signal {| s_values := map with_sign xs; s_dt := with_sign dt; s_label := label |}) wl m
+  = Some {| o_class := txt "AccSignal"; o_values := map (fun y => round_b64 (y * m)) (map (fun x => round_b64 (dec_round 6 x)) xs);
+            o_dt := round_b64 (dec_round 4 dt); o_label := if wl then label else txt "m1" |}.
+Proof. exact P_gen_c16.gen_roundtrip_asig. Qed.
+Theorem C16_source_roundtrip_sig : forall gft, gft_ok gft -> forall label dt xs m, no_break label ->
+  gen_load_sig gft splitlines tokens src_float src_mul
+    (gen_save_signal {| s_values := map with_sign xs; s_dt := with_sign dt; s_label := label |}) m
+  = Some {| o_class := txt "Signal"; o_values := map (fun y => round_b64 (y * m)) (map (fun x => round_b64 (dec_round 6 x)) xs);
+            o_dt := round_b64 (dec_round 4 dt); o_label := txt "m1" |}.
+Proof. exact P_gen_c16.gen_roundtrip_sig. Qed.
+
+(** non-vacuity of the source tie: the generated writer and readers RUN (with the satisfying genfromtxt instance) on the
+    record of [C16_nonvacuous] *)
+Example C16_source_nonvacuous :
+  let label := txt "my label 1" in
+  let xs := [1 # 128; -1 # 1000000000; 123456789123 # 1000; 5 # 2] in
+  let file := gen_save_signal {| s_values := map with_sign xs; s_dt := with_sign (3 # 2); s_label := label |} in
+  string_of_list_ascii file =
+    ("my label 1" ++ String "010" "4 1.5000" ++ String "010" "0.007812" ++ String "010" "-0.000000"
+      ++ String "010" "123456789.123000" ++ String "010" "2.500000")%string /\
+  option_map (fun o => (string_of_list_ascii (o_class o), o_label o, o_dt o, List.length (o_values o), nth 3 (o_values o) 0))
+             (gen_load_asig P_gen_c16.gft_model splitlines tokens src_float src_mul file true 3)
+    = Some ("AccSignal"%string, label, 3 # 2, 4%nat, 15 # 2) /\
+  gen_load_signal P_gen_c16.gft_model splitlines tokens src_float file gen_load_signal_default_astype = Some None.
+Proof. cbv zeta. split; [|split]; vm_compute; reflexivity. Qed.
